@@ -14,15 +14,24 @@ METHODS = ("init", "rotateIfNeeded", "checkStartupRotation", "checkDailyRotation
 
 class Sink:
     def __init__(self, ck):
+        from engine.inline import flatten
         F = ck.facts
         self.F = F
-        self.m = {name: F.fn(RP + "::" + name) for name in METHODS}
-        self.send = F.fn(RS + "::send")
-        self.io_send = F.fn(IO + "::send")
-        self.fs_ctor = [f for f in F.fn_all(FS + "::FileSink") if f.d.get("kind") == "ctor" and not f.d.get("copyctor") and not f.d.get("movector")][0]
+        raw = {name: F.fn(RP + "::" + name) for name in METHODS}
+        raw_send = F.fn(RS + "::send")
+        raw_io = F.fn(IO + "::send")
+        raw_ctor = [f for f in F.fn_all(FS + "::FileSink") if f.d.get("kind") == "ctor" and not f.d.get("copyctor") and not f.d.get("movector")][0]
+        raw_crc = F.fn("calculateCRC32")
+        # the functions the rules look at as units; every other private helper is spliced into its caller, so the
+        # rules see the same code whether or not a maintainer has split a function
+        self.units = {f.id for f in raw.values()} | {raw_send.id, raw_io.id, raw_ctor.id, raw_crc.id}
+        self.m = {name: flatten(F, f, stop=self.units) for name, f in raw.items()}
+        self.send = flatten(F, raw_send, stop=self.units)
+        self.io_send = flatten(F, raw_io, stop=self.units)
+        self.fs_ctor = flatten(F, raw_ctor, stop=self.units)
         self.fs_flush = F.fn(FS + "::flush")
         self.fs_file = F.fn(FS + "::file")
-        self.crc = F.fn("calculateCRC32")
+        self.crc = flatten(F, raw_crc, stop=self.units)
         ck.touch(self.send, self.io_send, self.fs_ctor, *self.m.values())
         self._g = {}
 
@@ -31,9 +40,49 @@ class Sink:
             self._g[fn.id] = Graph(fn)
         return self._g[fn.id]
 
-    def is_active_file(self, n):
-        """expression denoting the sink's open QFile object: q_ptr->file() / file()"""
+    def owner(self, n):
+        """the (flattened) unit function whose tree contains node object n"""
+        if not hasattr(self, "_own"):
+            self._own = {}
+            for f in self.flat_units():
+                for x in f.all_nodes():
+                    self._own[id(x)] = f
+        return self._own.get(id(n))
+
+    def flat_units(self):
+        return list(self.m.values()) + [self.send, self.io_send, self.fs_ctor, self.crc]
+
+    def destructive_sites(self):
+        """[(Fn, node, kind)] for every destructive file call reachable from the sinks' entry points; code of private helpers
+        is seen inside the unit it was spliced into, not as a function of its own"""
+        from engine.inline import owner_of
+        F = self.F
+        out, seen = [], set()
+        flat = {f.id: f for f in self.flat_units()}
+        for fid in sorted(self.entry_reach()):
+            f = F.fns.get(fid)
+            if f is None:
+                continue
+            if fid in flat:
+                f = flat[fid]
+            elif owner_of(F, f, stop=self.units).id in flat and owner_of(F, f, stop=self.units).id != fid:
+                continue   # spliced into its owner
+            for n in sorted(f.all_nodes(), key=lambda n: n["id"]):
+                k = destructive_kind(n)
+                if k:
+                    key = (f.file if n["id"] < 1000000 else n.get("inl_file", ""), n.get("l"), n.get("c"), k)
+                    if key in seen:
+                        continue
+                    seen.add(key)
+                    out.append((f, n, k))
+        return out
+
+    def is_active_file(self, n, fn=None):
+        """expression denoting the sink's open QFile object: q_ptr->file() / file(), possibly held in a local"""
         n = unwrap_ptr(n)
+        fn = fn or (self.owner(n) if isinstance(n, dict) else None)
+        if fn is not None:
+            n = unwrap_ptr(deref_local(fn, n))
         if not is_call(n, FS + "::file"):
             return False
         o = unwrap_ptr(skip_copies(n).get("obj"))
